@@ -90,7 +90,7 @@ def year_alphabet(cal, tier, seed=0):
     special = (0, 1, 172, 2000)
     if tier == "thorough":
         special += (-1, 4, 100, 171, 173, 1400, 1582, 1900, 2024, 5784)
-        ys |= set(range(mid - 40, mid + 41)) | set(range(lo, lo + 20)) | set(range(hi - 19, hi + 1))
+        ys |= set(range(mid - 20, mid + 21)) | set(range(lo, lo + 10)) | set(range(hi - 9, hi + 1))
     else:
         # seed positions one extra block of 2 consecutive years; never decides the verdict
         off = lo + (seed * 104729) % max(1, hi - lo - 3)
@@ -406,7 +406,7 @@ def between_alphabet(cal, tier):
     add(hi, o[-1], (1, -1, 0) if tier == "quick" else (1, 2, 15, 29, -1, 0))
     add(hi, o[-2], (1, 0))
     add(hi, o[0], (1,))
-    years = (L, L + 1) if tier == "quick" else (L - 1, L, L + 1, L + 3, L + 4)
+    years = (L, L + 1) if tier == "quick" else (L - 1, L, L + 1, L + 4)
     for y in years:
         if not (lo <= y <= hi):
             continue
@@ -420,7 +420,7 @@ def between_alphabet(cal, tier):
         if tier == "thorough":
             months = set(range(1, n + 1))
         for m in sorted(months):
-            picks = (1, -1, 0) if tier == "quick" else (1, 2, 15, 28, -1, 0)
+            picks = (1, -1, 0) if tier == "quick" else (1, 2, 15, -1, 0)
             add(y, m, picks)
             if cal.get_days_in_month(y, m) >= 30:
                 add(y, m, (29, 30))
@@ -472,6 +472,9 @@ def _model_walk(cm, s, e, names):
 def _between_class(cm, cal, s, e, names):
     """input class of a (start, end, units) case; only public tables and the month-line model are used."""
     dirn, span, flags = _between_flags(cm, cal, s, e, names)
+    sig = [f for f in flags if f != "start-day-clamps"]
+    if sig:       # an edge class: the flags identify the input class, span / clamping are left to the case record
+        return "%s-%s" % (dirn, "+".join(sig))
     return "%s-%s-%s" % (dirn, span, "+".join(flags) if flags else "plain")
 
 
@@ -489,7 +492,9 @@ def _between_flags(cm, cal, s, e, names):
         # an amount of months that strictly passes `end` does not exist inside the calendar range
         same1 = _key(cm, s1) == ke          # the year step already reached end: the month walk is trivial
         if same1:
-            pass
+            # the month walk starts at end itself; the Hebrew search still probes one month past it
+            if ke[0] == cm.total - 1:
+                flags.append("no-month-after-end-in-range")
         elif dirn == "bwd" and ke[0] == 0 and landing >= e.day:
             flags.append("no-month-before-end-in-range")
         elif dirn == "fwd" and ke[0] == cm.total - 1 and landing <= e.day:
@@ -710,7 +715,7 @@ def w_between_ym(job):
                             if tm == 19 and ty > walk[0][0]:
                                 flags.append("month-walk-lands-on-month-19-of-later-year")
                     if flags:
-                        cls = cls0 + "-" + "+".join(flags)
+                        cls = "%s-%s" % ("fwd" if sg > 0 else "bwd", "+".join(flags))
                 case = {"kind": "between-ym", "calendar": cid, "start": [y1, m1], "end": [y2, m2], "units": list(names)}
                 acc.count(transitions=1, evaluations=1)
                 classes.add((label, cls))
@@ -800,10 +805,10 @@ def _time_laws(acc, P, cls, what, case, c, names, ts, te, tr, exact_unit):
         return False
     fin = _finest(names)
     if fin == exact_unit and tr != te:
-        acc.violation("%s/not-end-with-finest-unit/%s" % (P, cls), what + ": %s requested but start + period misses end by %d ns" % (fin.upper(), te - tr), case)
+        acc.violation("%s/not-end-with-%s/%s" % (P, fin, cls), what + ": %s requested but start + period misses end by %d ns" % (fin.upper(), te - tr), case)
         return False
     if fin in pr.NS and abs(te - tr) >= pr.NS[fin]:
-        acc.violation("%s/remainder-not-below-finest-unit/%s" % (P, cls), what + ": %d ns remain, finest requested unit %s is %d ns" % (abs(te - tr), fin, pr.NS[fin]), case)
+        acc.violation("%s/remainder-not-below-finest-unit-%s/%s" % (P, fin, cls), what + ": %d ns remain, finest requested unit %s is %d ns" % (abs(te - tr), fin, pr.NS[fin]), case)
         return False
     return True
 
@@ -824,7 +829,7 @@ def w_between_time(job):
             dirn = "fwd" if b > a else "bwd" if b < a else "same"
             for mask, names in TIME_SUBSETS:
                 label = "+".join(SHORT[n] for n in names)
-                cls = "%s-finest-%s" % (dirn, SHORT[names[-1]])
+                cls = dirn
                 P = "C09/time/between/%s" % ("single-" + SHORT[names[0]] if len(names) == 1 else "multi-coarsest-" + SHORT[names[0]])
                 case = {"kind": "between-time", "start_ns": a, "end_ns": b, "units": list(names)}
                 acc.count(transitions=1, evaluations=1)
@@ -915,7 +920,7 @@ def w_between_dt(job):
                 dnames = tuple(f for f in names if f in pr.DATE_FIELDS)
                 label = "+".join(SHORT[f] for f in names)
                 P = "C09/%s/between-datetime/date-units-%s" % (cid, "".join(SHORT[f] for f in dnames) or "none")
-                cls = "%s-%s-finest-%s" % (dirn, tod, SHORT[names[-1]])
+                cls = "%s-%s" % (dirn, tod)
                 if cm.family != "regular" and "months" in dnames:
                     fk = "years" in dnames
                     if fk not in fcache:
@@ -932,10 +937,10 @@ def w_between_dt(job):
                                 raise
                             fcache[fk] = []
                     if fcache[fk]:
-                        cls += "-" + "+".join(fcache[fk])
+                        cls = "%s-%s" % (dirn, "+".join(fcache[fk]))
                 case = {"kind": "between-dt", "calendar": cid, "start": list(alpha[i][0]) + [alpha[i][1]], "end": list(alpha[j][0]) + [alpha[j][1]], "units": list(names)}
                 acc.count(transitions=1, evaluations=1)
-                classes.add(("".join(SHORT[f] for f in dnames), cls))
+                classes.add((label, cls))
                 try:
                     p = Period.between(s, e, mask)
                     c = comps(p)
